@@ -795,6 +795,16 @@ func (fr *Frame) applyModifies(st, pre *State, fc *FuncContract, env *Env, args 
 			}
 			fr.recordWrite(name)
 			st = st.havoc(vc.fresh("mod"), map[string]bool{name: true}, false, false)
+		case strings.HasPrefix(item, "maps "):
+			// every map of the given type map[K]V may change: "maps K V"
+			parts := strings.Fields(item[5:])
+			if len(parts) != 2 {
+				panic(bindErr("modifies maps K V"))
+			}
+			mt := types.NewMap(vc.eng.resolveType(mustParseType(parts[0]), env.pkg), vc.eng.resolveType(mustParseType(parts[1]), env.pkg))
+			hv := vc.mapHeapVar(mt)
+			fr.recordWrite(hv)
+			st = st.havoc(vc.fresh("mod"), map[string]bool{hv: true}, false, false)
 		case strings.HasPrefix(item, "array "):
 			// every backing array with the named element type may change
 			te, err := ParseType(strings.TrimSpace(item[6:]))
